@@ -31,6 +31,8 @@ def _miri(bdir, argv, flags, timeout):
 
 
 def _classify(out):
+    if "memory leaked" in out:
+        return "miri-leak", next(l for l in out.splitlines() if "memory leaked" in l).strip()
     if "Data race detected" in out:
         return "miri-data-race", next(l for l in out.splitlines() if "Data race detected" in l).strip()
     if "Undefined Behavior" in out:
@@ -50,7 +52,9 @@ def run(prop, scenarios, repo, seed, jobs, outdir):
         n = sc["seeds"]
         # seeds are derived from VERIF_SEED so that a different seed explores different schedules
         base = (seed * 1000003) % 1000000
-        flags = f"{BASE_FLAGS} -Zmiri-many-seeds={base}..{base + n}"
+        # a scenario may bring its own flags (the leak check is on for the thread-free ones)
+        base_flags = sc.get("flags", BASE_FLAGS)
+        flags = f"{base_flags} -Zmiri-many-seeds={base}..{base + n}"
         code, out = _miri(bdir, sc["argv"], flags, sc.get("timeout", 3600))
         ok_lines = len([l for l in out.splitlines() if " ok:" in l or l.startswith(sc["argv"][0] + " ok")])
         cls, msg = _classify(out)
@@ -61,7 +65,7 @@ def run(prop, scenarios, repo, seed, jobs, outdir):
             # find the first failing seed for an exact replay
             failing = None
             for s in range(base, base + n):
-                c1, o1 = _miri(bdir, sc["argv"], f"{BASE_FLAGS} -Zmiri-seed={s}", sc.get("timeout", 3600))
+                c1, o1 = _miri(bdir, sc["argv"], f"{base_flags} -Zmiri-seed={s}", sc.get("timeout", 3600))
                 total += 1
                 if _classify(o1)[0] is not None:
                     failing, out = s, o1
@@ -71,8 +75,8 @@ def run(prop, scenarios, repo, seed, jobs, outdir):
             os.makedirs(rdir, exist_ok=True)
             path = os.path.join(rdir, f"{prop}-miri-{sc['name']}-{failing}.json")
             json.dump(dict(property=prop, engine="miri", scenario=sc["name"], argv=sc["argv"], miri_seed=failing,
-                           MIRIFLAGS=f"{BASE_FLAGS} -Zmiri-seed={failing}",
-                           how_to_replay=f"cd {bdir} && MIRIFLAGS='{BASE_FLAGS} -Zmiri-seed={failing}' cargo +nightly miri run --offline -- " + " ".join(sc["argv"]),
+                           MIRIFLAGS=f"{base_flags} -Zmiri-seed={failing}",
+                           how_to_replay=f"cd {bdir} && MIRIFLAGS='{base_flags} -Zmiri-seed={failing}' cargo +nightly miri run --offline -- " + " ".join(sc["argv"]),
                            violation=dict(**{"class": cls}, message=msg), output_tail=out[-3000:]), open(path, "w"), indent=1)
             violations.append({"class": cls, "index": failing, "message": f"[engine B, scenario {sc['name']}, miri seed {failing}] {msg}", "replay": path})
             entry["violation"] = cls
